@@ -9,7 +9,11 @@ use std::sync::Arc;
 thread_local! {
   // This thread-local variable holds the set of services currently being resolved
   // on this specific thread. This is the key to detecting circular dependencies.
-  static RESOLVING_STACK: RefCell<HashSet<InjectionKey>> = RefCell::new(HashSet::new());
+  //
+  // Entries carry the address of the container doing the resolution: the same
+  // (type, name) key registered in two different containers names two different
+  // services, and a factory of one resolving the other is not a cycle.
+  static RESOLVING_STACK: RefCell<HashSet<(usize, InjectionKey)>> = RefCell::new(HashSet::new());
 }
 
 /// An RAII guard to detect and prevent circular dependencies.
@@ -18,29 +22,31 @@ thread_local! {
 /// If the key is already present, it means we have a circular dependency, and it panics.
 /// When the guard is dropped, it removes the key from the stack.
 pub(crate) struct ResolutionGuard {
-  key: InjectionKey,
+  entry: (usize, InjectionKey),
 }
 
 impl ResolutionGuard {
-  pub(crate) fn new(key: InjectionKey) -> Self {
+  /// `container` identifies the resolving container (its address).
+  pub(crate) fn new(container: usize, key: InjectionKey) -> Self {
+    let entry = (container, key);
     RESOLVING_STACK.with(|stack| {
       let mut stack = stack.borrow_mut();
       // `insert` returns `false` if the value was already present.
-      if !stack.insert(key.clone()) {
+      if !stack.insert(entry.clone()) {
         panic!(
           "Circular dependency detected while resolving service: {:?}",
-          key
+          entry.1
         );
       }
     });
-    Self { key }
+    Self { entry }
   }
 }
 
 impl Drop for ResolutionGuard {
   fn drop(&mut self) {
     RESOLVING_STACK.with(|stack| {
-      stack.borrow_mut().remove(&self.key);
+      stack.borrow_mut().remove(&self.entry);
     });
   }
 }
